@@ -290,7 +290,7 @@ def check_simplify(repo: Repo, rep: Report, rules: Dict[str, str]):
     for o in outs:
         if o.raised:
             for k in probs:
-                probs[k].append(f"_simplify raises {o.raised} on the schematic document")
+                probs[k].append(f"_simplify raises {o.raised} ({o.raise_msg}) on the schematic document")
             continue
         done += 1
     # the tree of the last completed run is in holder (all paths produce the same structure up to symbolic rect corner branches)
